@@ -529,6 +529,46 @@ func genBatchCase(prop string, r *Rng) *Case {
 	return &Case{Prop: prop, Check: "batch", Op: op}
 }
 
+// zipOnlyKinds: entries that ZIP-215 rules accept and the default rules reject.
+var zipOnlyKinds = []string{"tor0", "smRv", "smRv", "tor0", "ncR"}
+
+// zipPairCase: cases 2k and 2k+1 of a stream are, now and then, the SAME batch
+// (same bytes, same context and variant) verified under ZIP-215 rules and under
+// the default rules, in either order, with entries on which the two differ: a
+// verdict remembered across calls - by the batch path or by single
+// verification, which is this property's reference - without the rule set in
+// its key is wrong for the second call. Like every case it is a pure function
+// of (seed, worker, idx).
+func zipPairCase(seed uint64, worker, idx int) *Case {
+	r := NewRng(seed, lbl("C06-zippair"), uint64(worker), uint64(idx&^1))
+	if !r.Chance(1, 16) {
+		return nil
+	}
+	o := genOpt(r)
+	if !o.signable() {
+		o = Opt{}
+	}
+	firstZip := r.Chance(2, 3)
+	n := []int{1, 1, 2, 3, 4, 5, 8, 65, 67}[r.Intn(9)]
+	op := &Op{Fn: "VerifyBatch", Seed: r.U64(), Rd: &DevPlan{CSeed: r.U64()}}
+	op.Entries = make([]Entry, n)
+	uniform := r.Chance(1, 2)
+	for i := range op.Entries {
+		e := Entry{K: "ok", Key: r.Intn(3), ML: msgLen(r)}
+		if uniform || r.Chance(1, 3) || i == n-1 {
+			e.K = zipOnlyKinds[r.Intn(len(zipOnlyKinds))]
+			e.P, e.Q = r.Intn(1<<16), r.Intn(1<<16)
+		}
+		op.Entries[i] = e
+	}
+	o.Zip = firstZip
+	if idx&1 == 1 {
+		o.Zip = !firstZip
+	}
+	op.Opt = o
+	return &Case{Prop: "C06", Check: "batch", Op: op}
+}
+
 func allGoodKinds(es []Entry) bool {
 	for _, e := range es {
 		switch e.K {
